@@ -105,6 +105,36 @@ def m_hm_get(ex, st, callee, args, dest_ty):
         yield st2, none()
 
 
+def m_hm_entry(ex, st, callee, args, dest_ty):
+    """HashMap::entry(key): Entry::Occupied when the key is present, Entry::Vacant (remembering map and key) otherwise"""
+    base, m = _hm(ex, st, args[0])
+    key = args[1]
+    k = key_id(deref(ex, st, key) if isinstance(key, Ref) else key)
+    hit = []
+    for i, e in enumerate(m.items):
+        c = z3.And(m.len > i, key_id(e.fields[0]) == k)
+        hit.append(c)
+        for st2 in ex.branch(st, c):
+            yield st2, En("Entry", z3.IntVal(0), {"Occupied": (Opaque("OccupiedEntry", info=(base, i, key)),)})
+    for st2 in ex.branch(st, z3.Not(z3.Or(hit)) if hit else z3.BoolVal(True)):
+        yield st2, En("Entry", z3.IntVal(1), {"Vacant": (Opaque("VacantEntry", info=(base, key)),)})
+
+
+def m_vacant_insert(ex, st, callee, args, dest_ty):
+    base, key = args[0].info
+    for item in m_hm_insert(ex, st, "HashMap::insert", [base, key, args[1]], None):
+        st2 = item[0]
+        m = ex.read(st2, base.cell, base.projs)
+        n = ex.concrete(m.len)
+        yield st2, Ref(base.cell, base.projs + (("index", n - 1), ("field", 1, None)))
+
+
+def m_entry_key(ex, st, callee, args, dest_ty):
+    e = deref(ex, st, args[0]) if isinstance(args[0], Ref) else args[0]
+    key = e.info[-1]
+    yield st, key if isinstance(key, Ref) else Ref(ex.new_cell(st, key, "key"))
+
+
 def m_arc_new(ex, st, callee, args, dest_ty):
     yield st, Ref(ex.new_cell(st, args[0], "arc"))
 
@@ -190,6 +220,9 @@ MODELS = [
     (re.compile(r"^HashMap::<.*>::insert$"), m_hm_insert),
     (re.compile(r"^HashMap::<.*>::remove::<.*>$"), m_hm_remove),
     (re.compile(r"^HashMap::<.*>::get::<.*>$"), m_hm_get),
+    (re.compile(r"^HashMap::<.*>::entry$"), m_hm_entry),
+    (re.compile(r"^(std::collections::hash_map::)?VacantEntry::<.*>::insert$"), m_vacant_insert),
+    (re.compile(r"^(std::collections::hash_map::)?(Occupied|Vacant)Entry::<.*>::key$"), m_entry_key),
     (re.compile(r"^Arc::<.*>::new$"), m_arc_new),
     (re.compile(r"^<Arc<.*> as Clone>::clone$"), m_arc_clone),
     (re.compile(r"^<Arc<.*> as Deref>::deref$"), m_arc_deref),
